@@ -202,6 +202,9 @@ func dischargeSome(obs []*Obligation, outDir string, timeoutS int, requireAll bo
 			if ob.ExpectSat && to > 3 {
 				to = 3 // covers: a quick attempt to refute the hypotheses is enough
 			}
+			if ob.OptKey != "" && to > 10 {
+				to = 10 // optional invariants: the ones that hold are proved in well under a second; the others are dropped
+			}
 			r := solveRace(file, to, requireAll && !ob.ExpectSat)
 			if ob.ExpectSat {
 				// cover obligation: sat is the good answer
